@@ -143,7 +143,7 @@ func c33NetworkDecoders() []ref.C33Decoder {
 func TestVerif_C33_network(t *testing.T) {
 	r := verifmc.NewReport("C33", "network", "exploration")
 	defer r.Write()
-	cfg := ref.C33Config{MaxLen: verifmc.Pick(2, 3), CraftedScale: verifmc.Pick([]uint64{1 << 14, 1 << 22}, []uint64{1 << 14, 1 << 22, 1 << 30}), AllocAll: verifmc.Thorough()}
+	cfg := ref.C33Config{MaxLen: verifmc.Pick(2, 3), CraftedScale: verifmc.Pick([]uint64{1 << 14, 1 << 20}, []uint64{1 << 14, 1 << 22, 1 << 30}), AllocAll: verifmc.Thorough()}
 	r.Rule = ref.C33Rule(cfg)
 	for _, a := range ref.C33Assumptions() {
 		r.Assumption(a)
